@@ -161,6 +161,16 @@ CHECKS["C07"] = dict(
     design="§4 C07",
     note="Partial scope: no real torch containers. " + TRUST)
 
+CHECKS["C01"] = dict(
+    text="Effect monitor (CPython audit events + sys.meta_path recorder, attributed to fickling frames, self-tested on every run) around "
+         "9 analysis entry points. Inputs: gadget programs naming dangerous and probe globals through every global-resolving and "
+         "call-making opcode. Symbolic family: the int argument and up to 2 trailing bytes are solver variables through the real parser, "
+         "interpreter, unparse and rules (Confirmed over all paths for parse/decompile/check_safety; reduced domains where an entry point "
+         "prints the value). Mutation family: template x global solver-partitioned, with truncation at every byte position and byte-level "
+         "corruptions enumerated per cell. Thorough adds one fully symbolic corrupted byte at each position.",
+    technique="CrossHair+z3 symbolic execution of the analysis pipeline under an audit-event effect monitor; solver-partitioned truncation/corruption cells",
+    design="§4 C01")
+
 NOT_APPLICABLE = {
     "C16": "every observable sits behind zipfile/zlib/torch C-level I/O; symbolic inputs are realised at the first call so the solver has nothing to decide (DESIGN §5); the pickle-level half is covered by C08",
 }
